@@ -304,6 +304,25 @@ class FnTerms:
                 r = self._payload_of_join(r)
             elif r[0] == "payload" and r[2][0] == "payload":
                 r = self._payload_chain_of_join(r)
+            elif r[0] == "field" and r[1][0] == "downcast" and r[1][1][0] == "phi" and r[1][1][1] == self.path:
+                # a field of one variant of the crate's own enum, read from a join of literal constructors
+                var = r[1][2]
+                leaves, seen, st = [], set(), [r[1][1]]
+                while st and len(seen) < 64:
+                    x = st.pop()
+                    if x in seen:
+                        continue
+                    seen.add(x)
+                    if x[0] == "phi" and x[1] == self.path:
+                        st.extend(self.phi_operands(x).values())
+                    else:
+                        leaves.append(x)
+                if leaves and all(l[0] == "agg" and l[1] == "adt" and isinstance(l[2], str) for l in leaves):
+                    cands = [l for l in leaves if l[2].endswith("::" + var)]
+                    idx = e["i"]
+                    vals = {strip_site(l[3][idx]) for l in cands if idx < len(l[3])}
+                    if cands and len(vals) == 1 and all(idx < len(l[3]) for l in cands):
+                        r = cands[0][3][idx]
             return r
         if k == "index":
             return ("index", t, self.local_at(e["local"], b, pos))
@@ -523,7 +542,7 @@ class FnTerms:
                 x = x[2] if x[0] == "ref" else x[1]
             if not (x[0] == "phi" and x[1] == self.path):
                 continue
-            allowed = set(vals) if not other else ({0, 1} - set(excl))
+            allowed = set(vals) if not other else None          # the otherwise edge: every variant that is not excluded
             leaves = []
             okl = True
 
@@ -540,11 +559,10 @@ class FnTerms:
             if not okl or not leaves:
                 continue
             # variant index as tested: through Try::branch Continue(0) <-> Ok / Some, Break(1) <-> Err / None
-            def idx_of(v_):
-                if via_branch:
-                    return 0 if v_ in ("Ok", "Some") else 1
-                return {"Ok": 0, "Err": 1, "None": 0, "Some": 1}[v_]
-            fit = [p_ for p_, v_ in leaves if idx_of(v_) in allowed]
+            idxs = [(p_, variant_index(self.facts, v_, via_branch)) for p_, v_ in leaves]
+            if any(i_ is None for _p, i_ in idxs):
+                continue
+            fit = [p_ for p_, i_ in idxs if (i_ in allowed if allowed is not None else i_ not in excl)]
             if len(fit) == 1 and fit[0] is not None and fit[0] != b:
                 for e in self.conditions(fit[0]):
                     if e[4] not in seen_sw:
@@ -553,11 +571,28 @@ class FnTerms:
         return out
 
 
+def variant_index(facts, v_, via=False):
+    """discriminant value tested for the variant v_ (as returned by literal_variant); None when unknown"""
+    if isinstance(v_, tuple):
+        adt = facts.adts.get(v_[1]) if facts is not None else None
+        if adt is None or adt["kind"] != "Enum" or via:
+            return None
+        for var in adt["variants"]:
+            if var["name"] == v_[2]:
+                return var["idx"] if var.get("discr") is None else int(var["discr"])
+        return None
+    if via:
+        return 0 if v_ in ("Ok", "Some") else 1
+    return {"Ok": 0, "Err": 1, "None": 0, "Some": 1}[v_]
+
+
 def literal_variant(t):
     """'Ok' / 'Err' / 'Some' / 'None' when t is built as that variant whatever the inputs: a literal constructor, or the
     error hand-over of `?` (FromResidual::from_residual yields Err / None)"""
     if t[0] == "agg" and t[1] == "adt" and isinstance(t[2], str) and t[2].split("::")[-1] in ("Ok", "Err", "Some", "None"):
         return t[2].split("::")[-1]
+    if t[0] == "agg" and t[1] == "adt" and isinstance(t[2], str) and t[2].count("::") >= 2 and not t[2].startswith("std::"):
+        return ("adt",) + tuple(t[2].rsplit("::", 1))        # a variant of one of the crate's own enums
     if t[0] == "call" and isinstance(t[1], str) and t[1].endswith("::from_residual"):
         if "result::Result" in t[1]:
             return "Err"
@@ -623,8 +658,8 @@ def reachable_threaded(ft, pred, start):
                 else:
                     break
             v_ = literal_variant(x)
-            if v_ is not None:
-                idx = (0 if v_ in ("Ok", "Some") else 1) if via else {"Ok": 0, "Err": 1, "None": 0, "Some": 1}[v_]
+            idx = variant_index(ft.facts, v_, via) if v_ is not None else None
+            if idx is not None:
                 tm = ft.blocks[b]["term"]
                 hit = [bb for v, bb in tm["targets"] if int(v) == idx]
                 succs = hit if hit else [tm["otherwise"]]
